@@ -529,3 +529,218 @@ _upd('C20',
           'CInt.v, the builtin contract, realloc keeps oldsize bytes, qsort/vsnprintf/memcmp. Not modelled: printf n<0 for >= 2^31 bytes, 32-bit counters, use-after-free sequences (skipped). report.c and '
           'robsd-wait.c insert without a preceding find (duplicates possible: no observable consequence in report.c; robsd-wait with a repeated pid argument is not reachable from util.sh) - '
           'findings/C20_map_duplicate_keys.md; allocation-failure observations and candidate patch in findings/C20_map_alloc_failure.md (not applied: outside the quantifier). Repaired through this check: 7208c0f.')
+
+# ---------------------------------------------------------------------------------------------------------------
+# Third pass (after findings/gap_report_2.md): specifications state the property's reading, verdicts are never muted,
+# known findings are recognised by predicates on the case.
+_upd('C15',
+     text='PARTIAL. Coq theorems about the model of invocation_read/match_directory/invocation_alloc/invocation_walk + robsd-ls main, for every directory content with pairwise distinct names, root, keep-dir, '
+          'lock content and qsort-like function: listed <-> d_type DT_DIR, not hidden, path != keep-dir (C15_exact_set, C15_never_lists_others); each once (C15_nodup), strictly descending in BYTE order '
+          '(C15_strictly_descending) - name order, which is not age from the tenth invocation of a day on (DATE.10 < DATE.9; consequences recorded under C16/C17/C18); -B drops exactly the entry whose printed path '
+          'equals the first line of .running (C15_B_omits_exactly_lock_target), for a given directory iff the lock spells its path as printed (C15_B_omits_denoted_iff, _partial, _refuted, '
+          'C15_B_respelled_still_listed); unique solution and both exit branches (C15_spec_met_and_unique, C15_stdout, C15_stdout_both_branches); the listing is C16\'s notion of invocation '
+          '(C15_listing_is_invocations). On a file system answering DT_UNKNOWN nothing is listed, exit 0 (C15_dt_unknown_lists_nothing). Observed: byte-exact runs of robsd-ls in five modes; the oracle judges '
+          'every generated root except those served through the DT_UNKNOWN stand-in.',
+     note='known finding B-lists-lock-target-spelled-differently (corpus/C15/00). Outside the quantifier by an explicit case predicate (harness/c15.py outside_dt_unknown; counted as "outside:", never via '
+          'known_findings): a file system answering DT_UNKNOWN is a property of the file system, not of the root\'s contents; model-vs-implementation comparison still runs on it (findings/C15_dt_unknown.md, '
+          'patch not applied). Assumed: readdir names distinct, qsort contract, no PATH_MAX truncation, names without newline; configuration loader exercised, not modelled; roots <= 22 entries in the correspondence.')
+_upd('C16',
+     text='PARTIAL. The model is robsd_clean_x: robsd-clean + util.sh purge on an abstract tree WITH the failures of mkdir/cp under set -e (the function the driver runs; 0 disagreements with the real script in five '
+          'modes, whole-tree comparison, incl. blocked attics and cleanings performed by real canvas runs). For every well-formed tree, lock content, keep/count/keep-attic, qsort: retention 0 is a no-op; in EVERY '
+          'case exit 0, nothing new outside the attic, nothing outside the attic and the victims removed or changed (C16_always). Under [completes] (every victim archived; discharged when only directories sit '
+          'where attic directories go, C16_completes_when_attic_clear; outside: C16_attic_blocked_refuted, known finding) and [lock_consistent] (discharged for the lock lock_acquire writes, lock_acquire being the '
+          'interpretation of the translated util.sh statements): the root holds the running invocation plus the first others IN DESCENDING NAME ORDER, min(N, all) (C16_kept_set_partial); removed exactly, nothing '
+          'else touched, attic sound; attic complete with content, one destination per victim, under [apart] (true for what build_id hands out; C16_attic_complete_refuted otherwise); old attic content keeps its '
+          'bytes except at victims\' destinations. NEWEST = most recently created holds exactly when the age list descends by name (C16_newest_by_age_partial), which is so in every state reachable by runs and real '
+          'cleanings with at most nine invocations a day (C16_newest_are_most_recent; build_id as repaired by 8474b10), and fails from the tenth on (C16_newest_is_name_order_refuted, known finding). Every lock: '
+          'C16_kept_set_total, C16_kept_set_outside_guard, C16_kept_set_refuted. Oracles proved to accept the model under the stated guards (the age oracle is the one applied to the implementation). Tables and '
+          'script tail regenerated and pinned.',
+     note='known findings: clean-lock-spelled-differently, clean-stale-lock-keeps-one-less (patch findings/D15_clean_lock.diff not applied), newest-is-name-order-not-age (corpus/C16/10-13), '
+          'clean-attic-path-not-a-directory (corpus/C16/20-22, findings/C16_attic_blocked.md); each recognised by input class AND exact recorded behaviour, anything else is an ordinary violation. fixed: 8474b10 '
+          '(D23; corpus/C16/30-31 = real canvas traces judged by age; regression signature reissued-name-sorts-below-existing). Outside by explicit predicate: attic enabled and an invocation directory not named '
+          'Y-M-D (outside_names). Partial also because bash and GNU userland run behind stand-ins (stat -f %Sm -t, find -delete ignoring ENOTEMPTY, chflags, logname, date, robsd-clean-snap); symbolic links in '
+          'attic paths, modes/owners/timestamps not modelled; names without newline.')
+_upd('C17',
+     text='Coq theorems about build_id (as util.sh has it: largest suffix in use today + 1, /repo 8474b10; translator recognises three bodies, pin C17_util_sh_build_id), build_init, log_id. Reading (1) "carried by no '
+          'entry now": for every tree and every history of runs and arbitrary removals (C17_build_id_fresh, C17_build_id_flat, C17_build_id_named_after_date). Reading (2) "never handed out before, whatever has been '
+          'cleaned away": for every sequence of runs and REAL cleanings (robsd_clean_x, any keep/count/keep-attic) on a day with at most nine invocations the k-th run is DATE.k, names strictly increase in listing '
+          'order, the latest is kept (C17_never_reissued_partial); beyond nine a day and under removal of the newest by hand it fails (C17_never_reissued_refuted, known finding). Historical: '
+          'C17_regression_count_plus_one_collides (D10), C17_regression_next_free_reissues (D23). End to end on trees with contents: C17_new_invocation_fresh, C17_new_invocation_never_overwrites, '
+          'C17_fresh_builddir_is_build_init. lock_acquire is the interpretation of the statements read out of util.sh (C17_lock_acquire_is_util_sh); C17_sequential_runs_excluded; NOT claimed: '
+          'C17_concurrent_same_id_not_excluded. Logs: C17_log_id_fresh (log_inv, established by C17_log_inv_initial), C17_log_env_fresh, boundary C17_log_del_refuted; oracles sound and complete. Observed: real '
+          'util.sh functions under bash on generated states (build_id oracle on every stream), histories of 5-13 operations through the real canvas and robsd-clean judged for no-reissue and one attic directory per '
+          'archived invocation.',
+     note='fixed: 70fb0eb (D10, corpus 00-01), 8474b10 (D23, corpus 10-12; regression signature build-id-reissues-cleaned-name). known: name-reissued-beyond-nine-a-day (corpus 20). Outside by explicit predicates on '
+          'the case (counted "outside:", never via known_findings): a log is deleted / a name STEM.log.k is put there by something else (the quantifier is sequences of attempts; nothing in robsd deletes a log), an '
+          'initial build directory violating log_inv; on those cases log-id-failed and log-overwritten are still judged. Assumed: bash for ksh, GNU find/wc/tr/printf/echo, date stand-in, glob PREFIX* as prefix '
+          'test, numeric suffixes below 2^63, build_id/build_init/lock_acquire call order pinned as text. Not claimed: two concurrent runs sharing one id (findings/C17_concurrent_same_id.md).')
+_upd('C01',
+     text=CLAIMS['C01']['text'].replace('none does, and there is no row when no write to i was accepted (C01_latest_value).', 'none does, and there is no row when no write to i was accepted (C01_latest_value: adequacy of the dictionary; '
+          'C01_latest_value_read: the same on what robsd-step prints).').replace('One write is accepted iff the specification accepts it,', 'For a well-formed sorted file one write is accepted iff the specification accepts it '
+          '(C01_write_refines_dictionary),').replace('Exit 0 under any fault means the file is header plus the requested rows in ascending order and reads back as exactly them (guard: no $ in stored strings; a hand-made file outside the guard '
+          'refutes it).', 'After ANY history from the empty file, for every next command and every refusal point, exit 0 only if the arguments were acceptable and the file is header + the updated rows sorted by id, reading back as '
+          'exactly them (C01_exit0_after_any_history; for arbitrary files under the guard "no $ in stored strings", C01_exit0_holds_state / _refuted).').replace('A refusal after k bytes leaves exactly the first k bytes of the new content and exits 1 iff k < length; what the next command then sees is stated.',
+          'That a refusal after k bytes leaves the first k bytes is the DEFINITION of the fault model (assumed; compared byte for byte); proved: exit 1 iff k < length (C01_partial_write_view) and what the next command sees for an '
+          'empty file, a row-boundary cut and an unparsable file (C01_after_refused_write; that every other cut is unparsable is observed).').replace('Both harness oracles (by position and by name) are proved to accept every run of the model.',
+          'The harness applies the TWO-SIDED dictionary oracle - an acceptable write must exit 0 and be stored - proved to accept every run of the model (C01_oracle2_accepts_model, C01_oracle_two_sided); the remaining signatures '
+          '(exit0-without-new-state, rejected-write-changed-file, rows-not-ascending, failed-write-damaged-file) are python checks (observed).'),
+     note_add='The translator switches are matched as whole guarded statements, anything else raises. The known finding is recognised by the case (refusal_class: a fault plan injected into that very write, k below the length, rc 1, '
+              'file = new[:k]); lane kill (SIGTERM at the sync points of the real robsd-step -W) is outside the quantifier: counted, compared with the k=0 state. The corpus (one case per fixed/known entry) runs first and its '
+              'absence is an error.')
+_upd('C02',
+     text=CLAIMS['C02']['text'].replace('The call order of step.c/robsd-step.c is regenerated (t_lock.py) and proved to be the model\'s program-counter order.', 'The calls of step.c/robsd-step.c are regenerated (t_lock.py, checking brace depth and the '
+          'exact statement of every lock, unlock, truncate, write and close); each is given its file-system meaning (exec_op: assumed) and the calls between two sync points ARE LockDefs.step (C02_source_calls_are_model_steps); every '
+          'interleaving of processes executing the generated lists is a run of the model, hence mutually exclusive, prefix-reading and serialisable (C02_source_interleavings_are_model_runs, _are_serialised). What waiters experience '
+          'after a refused write is proved on the model extended by one refusal transition (C02_waiter_reads_cut, C02_poisoned_run; not part of the quantifier).'),
+     note_add='A process without events is a tie error. Corpus = the seeded schedules. Thorough = 4000 random schedules, no exhaustive two-process enumeration; refinement is at sync-point granularity.')
+_upd('C13',
+     note_add='Since the third pass: regress_log_trim is pinned and its switches consumed by the model (C13_tie_trim); the report.c caller is bridged to Report/ReportDefs.v (C13_report_exit0_decision, C13_hence_report_composed); '
+              'the recorded exit (Orch) is an instantiation (C13_recorded_exit, C13_hence_recorded). The step_exec clause holds now ASSUMING the shell waits for the last command of the pipeline. Exact peek, trim and step '
+              'oracles; late-tee cases are generated; the corpus loader raises when empty.')
+_upd('C14',
+     note_add='Since the third pass: cell failures are attributed per row by the extracted rows_report (signatures cell-wrong-for-guarded-row, cell-not-a-run-of-its-suite); the known finding is matched per row (the row\'s own suite '
+              'has equal start times / occurs twice in one invocation). Html/HtmlPage.v matches the real index.html byte for byte, the strict reader Html/HtmlParse.v is extracted, C14_index_roundtrip is proved under an exact '
+              'guard (signature index-html-malformed). Names containing markup are outside the property by predicate (html.c escapes nothing: findings/C14_html_no_escaping.md, witness C14_index_roundtrip_refuted). '
+              'C14_status_is_C13_html_status bridges to C13. The byte-for-byte comparison is the only tie for html.c and the render_* functions.')
+_upd('C19',
+     text='PROVED (47 theorems, closed) for every well-formed configuration (both builds, page sizes 4-64 KiB; wf_cfg includes "growth is validated" and "shrinking is validated", pinned to the source by C19_grow_validated_now / '
+          'C19_shrink_validated_now), unbounded sequences and sizes, over the states reachable from arena_alloc by a WELL-BRACKETED run (guard lifo_okb = what the arena_scope() macro enforces) respecting client_okb (open scope, arena '
+          'not freed, realloc names a live user block with its size or a positive part of it, client writes inside live user blocks): returned pointers and live blocks are maxalign-aligned; live blocks lie inside their frame '
+          'behind the header and are pairwise disjoint; no operation changes a byte of a live block except the client\'s own write and the unnamed tail of a block handed to realloc with fewer bytes than it has; a block stays '
+          'live and unchanged until its own or an enclosing scope is left or it is reallocated (liveness derived); realloc keeps the common prefix; leaving the innermost scope frees exactly its blocks and runs exactly its '
+          'cleanups newest first; cleanups are a permutation of those registered once all scopes are left, none runs more often than registered in any run; every allocation, cleanup or realloc (growing or shrinking) through a '
+          'non-innermost scope traps, everything else returns or exits only above 2^63 bytes; arena-backed buffers and ALL arena-backed vectors issue growing reallocs inside the API that trap exactly through outer scopes, with the '
+          'calls defined from expressions regenerated from buffer.c/vector.c; uint64 arithmetic does not wrap; the executable oracle accepts every well-bracketed run of the model. REFUTED outside the LIFO guard, inside the '
+          'property (KNOWN finding nonlifo-leave-undetected): a leave of a non-innermost scope is not detected; a block of a scope still open is handed out again (C19_nonlifo_leave_overlaps_live_block), the frame header is '
+          'handed out (C19_nonlifo_leave_hits_header); the oracle reports it (C19_oracle_flags_nonlifo_leave); from there the model no longer claims to describe arena.c.',
+     note='"Aligned for ALL call sequences" holds of the model only (Remark) and is FALSE of arena.c: observed by replay on both builds (corpus/C19/nonlifo_header_written.json). robsd leaves scopes only through the macro, so '
+          'the known finding has low severity. Repaired in /repo and pinned by translator switches: growth through an outer scope (08bdded, corpus d11_*) and shrinking an inner block through an outer scope (4eb1227, corpus '
+          'outer_shrink_*). OBSERVED only: two-arena non-interference (ASSUMED: distinct malloc chunks), calloc zeroing / strdup bytes (sampled), memory safety of arena.c under ASan. ASSUMED: malloc aligned/non-aliasing/'
+          'non-failing, addresses do not wrap, cleanup functions do not use the arena, compiler sizeof (sizeof(struct vector) is read by compile-and-print: 56), vsnprintf. Disjointness is vacuous for zero-size blocks. The header '
+          'witness is proved for the 8 build configurations only. Correspondence (bounded): <= 120 ops, sizes <= 1 MiB and >= 2^63, normal and ASan builds.')
+_upd('C20',
+     text='PROVED (62 theorems, closed). Arithmetic: the 15 fallbacks regenerated from arithmetic.c are exact and never trap, with the C types their names promise; the entry points are exact for either preprocessor branch RELATIVE '
+          'TO the builtin\'s documented contract (assumed; compared with three builds). Vector/buffer: for every sequence and ANY allocator the models refine the list / byte-string programs, a failure changes nothing; at BYTE '
+          'level with the old sizes and the vprintf reservation regenerated from the sources the block decodes to the abstract contents after every sequence and every answer is computed from the block; getline: single calls and '
+          'ANY interleaving with buffer operations answer the first line of the rest, NULL rewinds; sort results are determined by key. Map, ANY hash / power-of-two bucket count / threshold, every sequence: lookups are sound and '
+          'complete for the live ELEMENTS, remove takes out exactly the element found, elements never move and allocator calls are legal, iteration is strictly increasing, returns live entries, complete for survivors. THE '
+          'SPECIFICATION of the lookup clause is the dictionary over DISTINCT keys (Ks/MapKeySpec.v; C20_map_spec_removed_keys_absent). It is REFUTED for map.c\'s model on every sequence that inserts a present key, removes it once '
+          'and looks it up (C20_map_removed_key_still_present_refuted, C20_map_dict_refuted, C20_map_dup_lookup_stable_refuted) - three KNOWN findings with one root (MAP_INSERT never looks for the key) - and PROVED under the exact '
+          'guard no_reinsert (C20_map_dict_partial). What map.c does instead is a multi-dictionary (C20_map_refines_multidict), used only to recognise the known finding. The executed oracles accept the executed models.',
+     note='Allocation failure is OUTSIDE C20\'s quantifier: under injected failure (explicit predicate on the case) the property oracles judge only the operations before the first failure and the rest is model-vs-libks '
+          'correspondence only (findings/C20_map_alloc_failure.md: MAP_INSERT NULL-but-linked and the element leak are observed and counted, not judged). Sequences that remove the entry the C iterator points to are use-after-free '
+          'in C: counted outside, not executed. ASSUMED: CInt.v\'s reading of C11 on LP64, the builtin\'s contract, the realloc callback keeps the first old-size bytes, qsort sorts, vsnprintf returns the length it writes, an allocator '
+          'never grants 2^62 bytes, little-endian HASH_JEN. Pinned as text: totlen and the guard order of vector_reserve1, buffer_getline_impl\'s memchr/end test/NUL copy. The witnesses of the refuted clauses are located by '
+          'computation from the regenerated constants. Call sites: report.c creates duplicates without observable symptom; robsd-wait.c only with a repeated pid argument by hand. Repaired through this check: 7208c0f.')
+_upd('C05',
+     text='Coq theorems (closed under the global context) about the model of report.c as the working tree has it (cur_sw: the forms the translator found); each is closed by a lemma about the fully repaired source and type-checks only '
+          'while C05_source_has_every_repair (cur_sw = fixed_sw by computation) holds. Specification = the property\'s reading: every non-skipped row with a non-zero exit (-1 included) has its section; a log that does not exist is '
+          'an empty log; the cvs step shows the cvs logs of its mode. Proved for every mode, row list and file-system view: status/subject ok iff no non-skipped row failed, else count / failing step (hypotheses discharged for '
+          'orchestrator-written files); sections = the listed rows in order with name, (int)exit, log name; body = specification (excerpt = log suffix at a line start with min(10, n) non-empty lines); NEVER HIDDEN without a '
+          'silent alternative (C05_never_hidden): inside the quantifier a report is produced and holds every failing row\'s section; no report exactly under spec_error, which holds only outside (C05_error_only_outside); down '
+          'to the printed bytes. The harness\'s verdict is an oracle on exit status and stdout BYTES proved to accept the model (C05_bytes_oracle_accepts_model). Earlier forms of the source are refuted unconditionally: '
+          'C05_missing_log_refuted (D24), C05_regress_cvs_refuted (D25), C05_ports_cvs_logs_missing_refuted (D20), C05_body_refuted (D14).',
+     note='Guards, explicit: cvs_guard (robsd-ports, or no cvs log is there-but-unreadable; outside it report.c prints an incomplete cvs section instead of failing: C05_unreadable_cvs_log_not_an_error); the status theorem\'s two '
+          'hypotheses, discharged for the sequential and the parallel loop (that robsd/cross/ports schedules hold no parallel step is a C10 table fact, assumed). Outside the quantifier by a predicate on the case '
+          '(rp_common.outside_reason): a file that is a directory, a missing lock file, a passing dpb row without packages.diff, a regress row without log name - counted, not judged; the correspondence still compares them. '
+          'Observed only: model = robsd-report byte for byte on generated build directories (450 quick / 12k thorough) and on directories written by the real canvas script under bash with stand-ins (completed, failed, killed in '
+          'flight, killed between the in-flight record and tee\'s open). Assumed: libc printf/qsort/fnmatch, kernel file I/O, config loader. Pinned as text (sha256): last_lines, report_status, report_steps, report_skip_step, '
+          'is_log_empty, report_comment, report_generate, previous_builddir, step_get_log_path, format_file; whole bodies with known variants: report_step_log, canvas_report_step_log, regress_report_step_log. Defects found and '
+          'repaired in /repo: 91740ae, da850b3, 9cee41d, 2340721.')
+_upd('C18',
+     text=CLAIMS['C18']['text'].replace('present in this and the previous (greatest other) invocation', 'present in this and the previous invocation - "previous" is specified by creation order (spec_previous); report.c takes the greatest '
+          'other name, which is the previous invocation exactly under name_order_is_age (C18_previous_partial; true for fewer than ten builds a day) and is refuted from the tenth build on (C18_previous_refuted, C18_sizes_refuted; '
+          'known finding previous-is-name-order-not-age) -') + ' The harness\'s verdict is an oracle on exit status and stdout bytes proved to accept the model (C18_bytes_oracle_accepts_model).',
+     note=CLAIMS['C18']['note'].replace('sums assumed not to overflow int64 (C18_total_fits gives the bound)', 'no int64 overflow is proved, not assumed (C18_no_overflow, C18_no_overflow_wall: fewer than 2^22 rows, |duration| <= 2^40, '
+          '|time| < 2^62)') + ' "Previous" is judged by the creation order the harness records; outside by predicate: creation orders build_id cannot produce, a report for an invocation that is not the newest, directories '
+          'build_id did not name.')
+_upd('C04',
+     text='PARTIAL. Coq theorems (closed) on the transition system of robsd()\'s loop and its jobs, every schedule: the checker spec_ok_trace accepts every reachable state\'s starts/ends (C04_checker_accepts_every_run) and every ended '
+          'run (_partial/_refuted/_fresh_run). What acceptance means is proved on the sequence itself (C04_accepted_start_obeys_the_rules, ..stops_after_sync_failure, C04_oracle_meaning). Enabledness: C04_parallel_start_enabled, '
+          '..after_one_gone, C04_sync_start_enabled_when_barrier_clear. C04_failed_iff_a_sync_step_failed, C04_no_start_after_sync_failure, C04_parallel_exits_do_not_interfere, C04_invariant/C04_ncpu_bound. Every way a fresh '
+          'invocation with a non-skipped end step can end is a terminal state (C04_loop_never_runs_out_partial); REFUTED for skip { "end" } (C04_invocation_ends_while_parallel_step_runs_refuted). The skip set of the theorems is '
+          'what the step file says; -s on a resume at step >= 2 is ignored (C04_command_line_skip_on_resume_refuted, known finding). A hook that reads stdin: C04_hook_reading_stdin_decided, by cases on the generated constant '
+          '(fixed d8ba809). TIE: the statement groups of robsd()\'s loop body and step_exec_job are written down in source order by t_orch.py, and their interpretation is proved to be main_step / job_step and every run of them '
+          '(C04_loop_is_the_modelled_one; C04_other_loops_are_not_the_model); the canvas tail and five small functions are pinned as text.',
+     note='ASSUMED: the contract of robsd-wait - no line of robsd-wait.c is executed, modelled or translated; the Linux stub is pinned and run. bash stands in for ksh. lock_alive and reboot exits are interpreted as no-ops. Guards: '
+          'wf_cfg (includes distinct names), file_of_cfg, skip_agrees, end_last, fresh_ok. Observed only: one eager schedule family, <= 7 steps, ncpu <= 3, steps dying of signals, a settle time of half the observed start-up '
+          'latency (40 ms - 0.5 s). Hook: ROBSD_VERIF_NCPU.')
+_upd('C11',
+     text=CLAIMS['C11']['text'].replace('(insert and update case, start time kept)', '(for a step with no earlier record and for its completion, start time kept)') + ' Since the third pass: C11_no_inflight_unless_killed lets '
+          'records of the initial file through (_partial/_refuted say when; known finding inflight-parallel-record-left-after-resume); C11_every_end_is_terminal_partial; skip { "end" }: '
+          'C11_skipped_end_gets_the_end_hook_refuted, C11_exit_trap_while_parallel_step_runs_refuted (two known findings); a second invocation is refused for every OTHER directory '
+          '(C11_second_invocation_refused_untouched_partial) and NOT refused when it names the running directory (C11_second_invocation_refused_for_every_directory_refuted, known); a refused resume re-mails and re-hooks the '
+          'old directory (C11_refused_resume_reports_again, known); duration: C11_duration_nonneg_partial under a monotone clock, _refuted otherwise, observed against the real run time; tie: '
+          'C11_exit_trap_and_lock_are_the_modelled_ones (interpretation of the generated statement lists = orun / trap_exit / invoke_end).',
+     note='Log contents are set by fiat; mail transport is not modelled; lock_acquire atomicity and a monotone clock are ASSUMED; the accounting oracle theorem is for fresh invocations only. robsd-wait contract, bash for ksh. '
+          'util.sh trap_exit/lock_*/robsd()/step_exec_job are parsed into statement lists by t_orch.py whose interpretation is proved to be the model; the lock functions additionally run alone against the extracted model.')
+_upd('C03',
+     text=CLAIMS['C03']['text'].replace('step_next and the loop are proved equal to functions assembled from util.sh by translation (t_shell.py).', 'step_next\'s row decision and walk, the skip test, the two record writes and the end '
+          'record are translated (t_shell.py: C03_step_next_translated, C03_loop_translated); the recursion skeleton of the loop is written by hand in ResumeTie.v, robsd()\'s text is parsed by t_orch.py. A failed resume attempt: '
+          'C03_failed_resume_decided / _repaired_forms / C03_failed_resume_removes_the_build_directory (fixed d2af489).'),
+     note_add='e2e crash points are three kinds, ncpu 1.')
+_upd('C06',
+     text='Coq theorems (closed). Argument vector: the vector handed to execvp is the element-wise rendering of the first step of that name, nothing split or added (C06_argv_exact, C06_argv_no_splitting), for accepted FILES of all '
+          'five modes (C06_argv_exact_parsed; robsd-regress under the rdomain-free guard); script shape sh -eu [-x] script name when no variable called trace was stored at parse time (C06_script_argv_shape; outside: '
+          'C06_trace_flag_shadowed); hook: vector exact, three outcomes characterised. Exit status: the clang-translated exitstatus() decodes every int (C06_exit_faithful). step_exec as a whole: for a non-empty command it is '
+          'run_fork; exit 0 requires handshake in time, no SIGALRM and the command exiting 0, and under that guard iff (C06_runner_exit_zero_iff); every non-zero exit has a diagnostic. Exceptions with witnesses: SIGALRM gives '
+          '124 (impossible without a positive regress timeout, C06_alarm_only_when_armed); a late handshake gives 1 for a command that exited 0 (C06_exit_zero_iff_refuted_handshake, KNOWN FINDING, replayed), with SIGTERM during '
+          'that wait 1 at once. ONE runner: every exit of C07\'s transition system is run_fork\'s exit (C06_one_runner, C06_exitstatus_models_agree for all integers). Errors: unresolvable is exit 1 with diagnostics, no crash '
+          '(pin on 0771f90); a command of which nothing is left is refused, exit 1 with "empty step command", nothing forked, for every kernel function (C06_empty_command_is_error, pin on 8e76449). The oracles are the '
+          'specification (C06_oracle_reflects_spec) and accept every model run.',
+     note='ASSUMED: the kernel enters as the universally quantified kern (vector to "execvp failed" or a wait status; kernel_ok), gotsig and the handshake case; C06_one_runner instantiates them from C07\'s system, whose kernel model '
+          'is itself assumed. Not modelled or observed: environment, cwd, fds and umask of the command; stopped steps; allocation failures. KNOWN FINDING handshake-timeout-masks-exit-zero, recognised by the case (setsid delayed '
+          'beyond waiteof\'s ms read from the source, command arranged to exit 0) and the exact shape. OUTSIDE the quantifier: a signal sent to the runner (model compared, oracle not applied). The harness view is compared with the '
+          'parser model on every step case. Text pins that alarm on harmless edits: whole bodies of find_step, resolve_step_command, config_get_steps, hook_to_argv, config_default_trace, and step_exec around step_fork. '
+          'Repaired through this check: 0771f90, 8e76449.')
+_upd('C07',
+     text='PARTIAL. Coq theorems (closed) about a transition system of step_exec, step_fork, waiteof, killwaitpg and killwaitpg1. Source tie (C07_model_matches_source): its step function is PROVED to be the interpretation of the '
+          'transition table t_kill.py derives from step-exec.c on every run (rstep = tstep Gen_KillTable.table); exitstatus, siginstall, sighandler, step_timeout and the constants are pinned as text; exitstatus is also C06\'s clang '
+          'translation (C07_exit_mapping). Composed with an explicit kernel model, for ALL process trees (as member lists), timeouts and schedules: after an event that finds the runner in waitpid(-pid) at most 56 further '
+          'transitions, then exit with main reaped, SIGTERM sent, SIGKILL only against a TERM-ignoring main, no default-disposition member alive; without an event nothing is cut; no timeout means no alarm. spec is EXACT for the '
+          'code (C07_all_arrival_points_partial: iff; C07_survivors_exact; C07_oracle_on_model) but concedes three literal readings, each a named Prop refuted by a replayed witness and tracked as a known finding (survivors after '
+          'a normal end; status 0 after a request; 124 follows the last signal, not the cause). Three windows refute the all-arrival-points statement, each for every tree and schedule plus a witness '
+          '(sigterm-before-handler, signal-before-waitpid, signal-during-group-failure; known findings, replayed). Repeated SIGTERM (robsd-kill): window 2 heals, windows 1 and 3 are final (C07_resent_sigterm). C06\'s runner is '
+          'this system on exits (C06_one_runner).',
+     note='ASSUMED: the kernel model (kill(-pgid) reaches exactly the live members; SIGKILL kills; SIGTERM kills default-disposition members; waitpid reaps only main; a handled signal interrupts a blocking waitpid; unhandled SIGTERM '
+          'ends the runner; no alarm before alarm()). NOT MODELLED: any signal to the runner other than SIGTERM and SIGALRM (SIGINT, SIGHUP, SIGQUIT kill the runner at every pc, like window 1); SIGKILL or SIGSTOP of the runner; '
+          'stopped steps; delivery latency; PID reuse; members leaving the group or forking during the kill; a child dying before it closes the pipe; parent/child structure. OBSERVED: agreement on driven schedules (every sync '
+          'point x TERM/ALRM/real alarm; second and third signals; self-exits; handshake lanes) and undriven timings; kills are read from an interposed kill(2) (tools/kl_hold.c), the failure path from /proc/<pid>/syscall - the '
+          'runner\'s words decide nothing. Known findings are matched by recorded delivery places AND the exact shape of the window theorem. TRUSTED: t_kill.py\'s derivation of the table skeleton from the matched statements '
+          '(it raises on anything the table language cannot express). Hooks: verif.h sync points in step-exec.c.')
+_upd('C10',
+     text=CLAIMS['C10']['text'].replace('the listing is numbered 1..N, N>=1, ending with end', 'the step list is numbered 1..N, N>=1, ending with end (on the printed LINES this is refuted by a name holding a newline: '
+          'C10_listing_lines_refuted, known finding listing-name-with-white-space)').replace('the canvas end step is appended in place (pin on 8c850c1)', 'on stdout -o k yields exactly the suffix for every k in 1..INT_MAX, for N+1 the empty '
+          'one (C10_offset_stdout_suffix, C10_offset_past_end); a listed step whose command is empty is refused by the runner, exit 1, nothing forked (C10_listed_empty_command_refused, pin on 8e76449); the canvas end step: '
+          'list_cmd_with canvas_end_reserved = list_cmd (pin on 8c850c1 with content; unreserved: the list is lost at 16*2^k steps)'),
+     note='A schedule exists iff every command renders in the model\'s rdomain-free environment (robsd-regress: if); accepted configurations WITHOUT a schedule are generated (observed: stepsfail on both sides, nothing on stdout). '
+          'k = N+1 is "offset too large" with empty stdout. Known findings listed-step-unreachable and listing-name-with-white-space are matched by predicates on the case (the candidate patch findings/C10_name_collisions.diff '
+          'changes what the parser accepts: 95 lines, not applied); a guided parse keeps the listing oracles running for names with white space. rdomain in a step command is outside the one-runner guard (witness). Fixed: '
+          '8c850c1 (canvas end step), 8e76449 (empty command). Step tables, argv template, placeholder regenerated by t_conf.py/t_exec.py and proved to coincide.')
+_upd('C08',
+     text='Coq model of the configuration reader on tables regenerated from conf*.c; for every table and environment acceptance is equivalent to the declarative grammar reading (C08_accept_iff_conforms(_tokens)). "Accepted iff '
+          'it conforms to the DOCUMENTED grammar" is REFUTED in every mode (C08_accept_iff_documented_refuted). What holds in all five modes is acceptance iff conformance to the documented rows with the differences of '
+          'Conf/DocExceptions.v applied, with the same dictionary (C08_accept_iff_documented_partial), and that list is proved to be exactly the difference between DocSpec (transcribed line by line from the five *.conf.5 pages '
+          'and robsd-config.8, page:line per row) and the C tables (C08_doc_exceptions_exact). One witness per class is replayed on robsd-config; six classes are known findings (undocumented variables readable, documented '
+          'variables undefined when unset, documented directories not checked, regress-env repeatable, canvas robsddir, canvas step without command); the representation class changes nothing. Rejections exit 1 with empty stdout '
+          'and a diagnostic naming the file (source as repaired by 78f946e). Values: plain keywords (C08_value_of_accepted_all), ${regress}, ${regress-env}, ${canvas-dir}, per-test options, rdomain = 11 + k mod 245 for the '
+          'k-th call (c0e596d) and through the interpolation with one shared counter. On an accepted text the whole command equals the command on the documented tables with exceptions (C08_value_oracle_reflection). An accepted '
+          'configuration reaches no trap flag of the model (35cfab1).',
+     note='Observed: model = robsd-config on generated cases; the oracle (reader on the purely documented tables) differs from robsd-config only inside the listed classes. Assumed: the reading rules R1-R6 of DocSpec.v; early '
+          'expansion of env {} is a reading; stat/getpwnam/glob/fnmatch/getenv/sysconf/if_group_addr as environment record. Pinned as text: config_parse_keyword, config_validate, the parsers\' return codes. The lexer as a whole '
+          'has no specification beyond C08_lexer_laws. Defaults by computation in one environment. Repaired through this check: c0e596d, 78f946e, 35cfab1.')
+_upd('C12',
+     text='PARTIAL. Proved (Coq, closed) for all inputs about the models: the configuration reader reaches none of its trap flags (C12_config_no_abort_holds_now; the source\'s assert/trap sites are counted by the translator and accounted '
+          'for, C12_source_trap_sites_accounted); exit and stdout classification of the command models (robsd-config, robsd-step -R/-W, robsd-regress-log, interpolation), lexer cursor bounds, totality, fuels never exhausted. '
+          '"Promptly" read as cost proportional to the input is REFUTED: C12_interp_cost_refuted; the exact bound 4^d*|out| <= |s|*V^d (C12_interp_output_bound, C12_config_interp_output_bound) is attained '
+          '(C12_interp_fanout_attains_bound) - known finding interpolation-fanout-not-prompt, replayed. OBSERVED only: memory safety with ASan+UBSan builds of robsd-config, robsd-step, robsd-ls, robsd-hook, robsd-report, '
+          'robsd-regress-log and robsd-regress-html, 5 s per execution in every lane, every seed asserted to be accepted by every tool before mutation, acceptance rates recorded per tool and mode.',
+     note='Memory safety of C cannot be proved with the installed tools (no VST/CompCert). Mutation is blind, not coverage-guided; fuzz-config/fuzz-step targets of the repository are not run. list, ls, hook, report and html lanes '
+          'are judged by the oracle only; inputs above 3000 bytes are not put to the list models; robsd-exec, robsd-stat and robsd-wait are not run here. Unreadable log paths are outside the quantifier. Repaired through this '
+          'check: 35cfab1 (builddir re-entry), f0fc0f7 (silent rejection).')
+_upd('C09',
+     text=CLAIMS['C09']['text'].replace('The characters $ { }, the order of the tests, the IGNORE copy and the two depth sites are matched token for token in the source (t_interpsrc.py).', 'The three characters, the limit and the count of '
+          'depth sites are tied (C09_source_characters), the diagnostic texts are tied (C09_source_messages); the order of the tests, the IGNORE copy and the place of the increment/decrement are PINNED AS TEXT by t_interpsrc.py. '
+          'Size: 4^d*|out| <= |s|*V^d and the fan-out family attaining it (C09_output_bound, C09_fanout_exact).'),
+     note_add='The oracle is the model, proved equal to the substitution relation (C09_model_iff_relation, C09_oracle_accepts_model). Environments hold up to 7 variables, fan-out up to 20 kB of result; only robsd-config -m canvas - '
+              'and interpolate_str are run.')
